@@ -187,7 +187,7 @@ def tok_formats(rng):
     elif cls == "dot_end":
         t = "%d." % int(mag % 1000)
         if rng.random() < 0.3:
-            t += rng.choice(["e3", "E-2", "e+05"])
+            t += rng.choice(["e3", "E-2", "e+05", "+3", "-2", "+05"])
     elif cls == "dot_start":
         t = rng.choice([".5", ".25", ".125", ".001", ".5e3", ".25E-2", ".5+3", "-.5", "+.75"])
     elif cls == "exp_pad":
@@ -659,10 +659,17 @@ def gen_carrier(rng):
     return {"text": text, "layout": layout, "slots": slots, "ops": ops, "ntr": ntr, "jump_vol": jump_vol}
 
 
+def norm_carrier(car):
+    """a carrier that went through JSON: surface numbers are keys again"""
+    car["slots"]["sc"] = {int(k): v for k, v in car["slots"]["sc"].items()}
+    return car
+
+
 def run_carrier(car):
     """apply the edits through the public API, write, return (written text, expectations)
     expectations: list of (where, key, position, 'set' value | 'kept' token)"""
     import numpy as np
+    norm_carrier(car)
     import montepy
     import mp
     from montepy.data_inputs.transform import Transform
@@ -1112,8 +1119,9 @@ def run(ctx):
         "nearest double, as MCNP stores it; the theorems state exactly this (reads_as / isclose)",
         "a float value given to an integer node, an int beyond the double range and a token MontePy cannot read "
         "are outside the property's domain (counted, not judged)",
-        "theorem C05_float_close needs the node to be followed by nothing or by a blank (followed_ok): a node "
-        "directly followed by a comment or a newline is judged by the oracle only",
+        "theorem C05_float_close needs followed_ok: the node is followed by nothing, by a blank string, or by "
+        "something that starts with white space, '$' or '&' (newline, '$' comment); other paddings (an empty "
+        "padding string, a 'c' comment glued to the number) are judged by the oracle only",
     ]
     return ctx.finish(tb, assumptions,
                       "cases = generated (token spelling class x padding shape x new-value class) triples plus carrier "
